@@ -55,7 +55,7 @@ Definition node_enc (n : node) : list N :=
   ++ L (fun kv => [fst kv; snd (snd kv)]) (trans (sr n))
   ++ [match incoming (sr n) with None => 0 | Some ps => 1 + pieces_total ps end]
   ++ L (fun x => [x]) (hist n)
-  ++ [enabled_ver n; b2n (need_load n)].
+  ++ [enabled_ver n; b2n (need_load n); replay_idx n].
 
 Definition dsts (os : list out) : list N :=
   fold_left (fun acc o => match o with Send d _ => sadd d acc | _ => acc end) os [].
@@ -73,7 +73,7 @@ Definition outs_enc (s : S) : list N :=
        (filter (fun o => match o with Role _ _ => true | _ => false end) os)
   ++ L (fun o => match o with TAdd x => [1; x] | TDrop x => [2; x] | _ => [] end)
        (filter (fun o => match o with TAdd _ | TDrop _ => true | _ => false end) os)
-  ++ [exc s; b2n (jmp s)].
+  ++ [exc s; njmp s].
 
 Definition MODP : N := 2305843009213693951.   (* 2^61 - 1 *)
 Definition hstep (acc x : N) : N := (acc * 1000003 + x + 1) mod MODP.
